@@ -274,9 +274,8 @@ func n1Uses(c *Ctx, fn *ssa.Function, a *ssa.Alloc, after *ssa.Call, argsTuple s
 
 // n1Guarded: at block b the value is known non-nil, or the argument is known present.
 func n1Guarded(b *ssa.BasicBlock, isAlias func(ssa.Value) bool, a *ssa.Alloc, argsTuple ssa.Value, idx int) bool {
-	for _, pc := range pathConds(b) {
-		cond, neg := stripNot(pc.If.Cond)
-		taken := pc.Branch != neg
+	for _, pf := range pathFacts(b) {
+		cond, taken := pf.Cond, pf.Truth
 		if x, neq, ok := nilTest(cond); ok {
 			// x may be a fresh load of the same variable
 			same := isAlias(x)
